@@ -18,7 +18,9 @@ RULE = (
     "working tree (all FMsg types + custom types; plain FTag and custom tags; every usable group of "
     "the table with 1..k items, first member always present, other members an arbitrary subset in "
     "table order, nested to depth 4; values = non-empty printable ASCII boosted with framing "
-    "look-alikes; modes normal / PossDupFlag / SequenceReset / raw_seq_num; arbitrary CompIDs and "
+    "look-alikes; modes normal / PossDupFlag (flag before the body or, as a retransmission has it, PossDupFlag + OrigSendingTime "
+    "behind the body) / SequenceReset / raw_seq_num; type spelled as enum member or plain string, custom types incl. ones spelled "
+    "like enum member names; one Codec object shared by all cases of a shard (many sessions); arbitrary CompIDs and "
     "counters), plus a seed-independent sweep of every table entry x 1..3 items x {delimiter only, "
     "all members, nested}. Oracle: decode(encode(m)) compared with the generator's own nested list. "
     "Non-trivial = has a group, a framing look-alike value or a non-normal mode; distinct by "
@@ -36,13 +38,25 @@ class _FixedDT(_dt.datetime):
         return _dt.datetime(2023, 5, 6, 7, 8, 9, 123000)
 
 
+_CODEC = []
+_LAST = []
+
+
 def run_case(acc, case, replaying=False):
     _codec.datetime = _FixedDT
-    codec = Codec(FIXProtocol44())
-    sess = FIXSession(1, case["target"], case["sender"])
+    # ONE codec per shard for many sessions (different CompIDs, equal and different session keys): a codec must not
+    # remember anything from one session / message to the next
+    if not _CODEC:
+        _CODEC.append(Codec(FIXProtocol44()))
+    codec = _CODEC[0] if not replaying else Codec(FIXProtocol44())
+    sess = FIXSession(1 if case.get("next_out", 1) % 3 else 2, case["target"], case["sender"])
     sess.next_num_out = case["next_out"]
     sess.next_num_in = 1
     cj = dict(case)
+    cj.pop("_prev", None)
+    if _LAST and not replaying:
+        cj["_prev"] = _LAST[0]  # the case the shared codec saw just before (state carried over must be replayable)
+    _LAST[:] = [{k: v for k, v in case.items() if k != "_prev"}]
 
     def bad(sig, detail):
         acc.violation("C01:" + sig, detail + f" | type={case['msgtype']} mode={case['mode']}", cj)
@@ -146,4 +160,13 @@ def _retuple(body):
 def replay(acc, case):
     case = dict(case)
     case["body"] = _retuple(case["body"])
-    run_case(acc, case, replaying=True)
+    prev = case.pop("_prev", None)
+    _CODEC[:] = []
+    _LAST[:] = []
+    if prev:
+        from vlib.runner import Acc
+
+        prev = dict(prev)
+        prev["body"] = _retuple(prev["body"])
+        run_case(Acc(), prev)
+    run_case(acc, case)
